@@ -292,6 +292,9 @@ func c36Classify(err error) string {
 
 func (c c36) Run(in string, scratch string) Result {
 	f := strings.Split(in, " ")
+	if f[0] == "sx" { // round 2: several named part stores / per-part transactions (c36_stream.go)
+		return c36sRun(f, scratch)
+	}
 	if len(f) != 4 {
 		return Result{Out: "PARSE-ERROR", Tags: []string{"malformed"}}
 	}
@@ -606,6 +609,13 @@ func (c c36) Gen(r *Rng, tier string, n int) []string {
 			setup = "cerr"
 		}
 		emit(c36Line(mode+sfx, setup, k, ops))
+	}
+	if c.fixed {
+		nsx := n / 3
+		if tier == "thorough" {
+			nsx = n / 10
+		}
+		cases = append(cases, c36sGen(r.Fork(), nsx)...)
 	}
 	return cases
 }
